@@ -149,7 +149,11 @@ class RecursiveSigner:
             dependency_envelope = cbor2.loads(self.envelope.value[dependency_name])
         except cbor2.CBORDecodeError:
             raise ValueError(f"Failed decoding dependency {dependency_name} in {self.envelope_name}")
-        if not isinstance(dependency_envelope, cbor2.CBORTag):
+        if not (
+            isinstance(dependency_envelope, cbor2.CBORTag)
+            and dependency_envelope.tag == 107
+            and isinstance(dependency_envelope.value, Mapping)
+        ):
             raise ValueError(f"Dependency {dependency_name} in {self.envelope_name} is not a valid envelope.")
 
         return _mutable_envelope(dependency_envelope)
